@@ -247,6 +247,52 @@ def check_retcodes(rep, mod):
         R.check(not bad, 'igzip/igzip_inflate.c:%s' % fn, 'may return %s; documented: %s' % (bad, sorted(allowed)), key='R-RETCODES-HDR|%s' % fn, sample='%s returns %s' % (fn, sorted(map(str, rs))))
 
 
+def check_field_pairing(rep, mod):
+    """writer and reader are siblings over one wire format: the header structure field the writer serialises through a multi-byte
+    endian helper must be the field the reader fills from the same kind of helper (a buffer-capacity field written where the
+    length belongs round-trips nothing, and the in-tree test sets capacity == length)"""
+    R = rep.rule('R-HDR-FIELD-PAIR', 'gzip / zlib header writer vs reader: for each multi-byte width, the set of header-structure fields whose loaded value is passed to store_{le,be}_uN in the writer equals '
+                 'the set of header-structure fields the reader assigns from the result of load_{le,be}_uN (value flow through the IR, per structure offset)', floor=2, unit='writer/reader pairs')
+    for tag, wfn, rfn, sty in (('gzip', 'isal_write_gzip_header', 'isal_read_gzip_header', 'struct isal_gzip_header'), ('zlib', 'isal_write_zlib_header', 'isal_read_zlib_header', 'struct isal_zlib_header')):
+        w, r = mod.funcs.get(wfn), mod.funcs.get(rfn)
+        if w is None or r is None:
+            raise AnalysisBroken('%s / %s not found' % (wfn, rfn))
+        R.instance()
+        Pw, Pr = irrules.prov(mod, w), irrules.prov(mod, r)
+        wf, rf = {}, {}
+        for i in w.all_insns():
+            m = re.match(r'^store_(le|be)_u(\d+)', i.callee or '') if i.op == 'call' else None
+            if m:
+                for a in Pw.atoms(i.args[1][1]):
+                    if a[0] == 'ld' and a[1][0] == 'param' and a[1][1] == 1 and a[1][2] is not None:
+                        wf.setdefault(m.group(1) + m.group(2), {})[a[1][2]] = mod.where(w, i)
+        for i in r.all_insns():
+            if i.op == 'store':
+                cell = [a for a in Pr.atoms(i.ops[1]) if a[0] == 'param' and a[1] == 1 and a[2] is not None]
+                if len(cell) != 1:
+                    continue
+                for a in Pr.atoms(i.ops[0]):
+                    m = re.match(r'^load_(le|be)_u(\d+)', a[1]) if a[0] == 'call' else None
+                    if m:
+                        rf.setdefault(m.group(1) + m.group(2), {})[cell[0][2]] = mod.where(r, i)
+        if not wf or not rf:
+            raise AnalysisBroken('%s: no multi-byte field recognised in writer (%s) or reader (%s)' % (tag, sorted(wf), sorted(rf)))
+        names = {}
+        try:
+            flds = [n for n in re.findall(r'(\w+)\s*;', re.search(r'%s \{(.*?)\n\};' % sty, read_repo('include/igzip_lib.h'), re.S).group(1))]
+            names = {o: n for n, o in field_offsets(sty, flds).items()}
+        except Exception:
+            pass
+        nm = lambda o: names.get(o, 'offset %d' % o)
+        for k in sorted(set(wf) | set(rf)):
+            a, b = set(wf.get(k, {})), set(rf.get(k, {}))
+            only_w, only_r = a - b, b - a
+            R.check(not only_w and not only_r, (wf.get(k, {}).get(sorted(only_w)[0]) if only_w else rf.get(k, {}).get(sorted(only_r)[0])) if (only_w or only_r) else wfn,
+                    '%s header, %s-bit %s-endian fields: writer serialises %s, reader fills %s - the two ends disagree on which structure field this wire field is' %
+                    (tag, k[2:], 'little' if k[:2] == 'le' else 'big', sorted(nm(o) for o in a), sorted(nm(o) for o in b)), key='R-HDR-FIELD-PAIR|%s|%s' % (tag, k),
+                    sample='%s u%s%s: {%s} both ways' % (tag, k[2:], k[:2], ', '.join(sorted(nm(o) for o in a))))
+
+
 def main(tier):
     rep = Report('C19', tier, level='other')
     rep.undecided = UNDECIDED
@@ -261,4 +307,5 @@ def main(tier):
     check_endian(rep, mod)
     check_consts(rep, mod)
     check_retcodes(rep, mod)
+    check_field_pairing(rep, mod)
     return rep.finish()
